@@ -402,7 +402,37 @@ def g_regconst(tier):
         yield mkprog(base + '/and', [A(R(), C(k)), If(B('&&', B(op, R(), C(k2)), V('va')), one(), two())])
 
 
+def g_init(tier):
+    """every expression form inside the initialiser of a local variable (parsed through its own operator table)"""
+    E = []
+    def add(n, f, fn=False): E.append((n, f, fn))
+    add('neg', lambda: Un('-', V('vb'))); add('not', lambda: Un('!', V('vb'))); add('bnot', lambda: Un('~', V('vb'))); add('deref', lambda: Deref('pp'))
+    add('preinc', lambda: Inc('++', True, V('vb'))); add('predec', lambda: Inc('--', True, V('vb'))); add('postinc', lambda: Inc('++', False, V('vb'))); add('postdec', lambda: Inc('--', False, V('vb')))
+    add('call', lambda: Call('f', [V('vb')]), True); add('callsum', lambda: B('+', Call('f', [V('vb')]), C(1)), True); add('callarg', lambda: Call('f', [B('+', V('vb'), V('vc'))]), True)
+    add('tern', lambda: Tern(V('vb'), V('vc'), V('vd'))); add('terncmp', lambda: Tern(B('<', V('vb'), V('vc')), C(1), C(2)))
+    add('asg', lambda: Assign(V('vb'), '=', V('vc'))); add('casg', lambda: Assign(V('vb'), '+=', V('vc'))); add('shasg', lambda: Assign(V('vb'), '<<=', C(1)))
+    add('mul2', lambda: B('*', V('vb'), C(2))); add('mul4', lambda: B('*', V('vb'), C(4))); add('div2', lambda: B('/', V('vb'), C(2)))
+    add('idx', lambda: Index('arr', X)); add('idxk', lambda: Index('arr', C(2))); add('idxe', lambda: Index('arr', B('&', V('vb'), C(3)))); add('pY', lambda: Index('pp', Y))
+    add('par', lambda: B('-', V('vb'), B('-', V('vc'), V('vd')))); add('parl', lambda: B('-', B('-', V('vb'), V('vc')), V('vd'))); add('negsum', lambda: Un('-', B('+', V('vb'), V('vc'))))
+    add('notcmp', lambda: Un('!', B('==', V('vb'), V('vc')))); add('land', lambda: B('&&', V('vb'), V('vc'))); add('lor', lambda: B('||', V('vb'), V('vc'))); add('cmp', lambda: B('<', V('vb'), V('vc')))
+    add('k', lambda: C(200)); add('kneg', lambda: C(-3)); add('kexpr', lambda: B('+', C(3), B('*', C(4), C(5)))); add('ku', lambda: V('ku')); add('X', lambda: X); add('Ysum', lambda: B('+', Y, C(1)))
+    add('comma', lambda: Comma(Assign(V('vb'), '=', C(3)), B('+', V('vb'), C(1)))); add('w', lambda: V('wb')); add('whi', lambda: B('>>', V('wb'), C(8))); add('sizeof', lambda: B('+', V('vb'), C(1)))
+    for (n, e, fn), (tn, lt, dst) in itertools.product(E, (('u8', 'u8', 'va'), ('s8', 's8', 'sa'), ('u16', 'u16', 'wa'))):
+        pid = 'deep/init/%s/%s' % (tn, n)
+        # (16-bit destinations of composite 8-bit values: known-broken area K13/K14/K16/K18, only plain forms here)
+        if tn == 'u16' and n not in ('w', 'whi', 'k', 'kneg', 'kexpr', 'ku', 'idx', 'idxk', 'X', 'par', 'parl', 'mul2', 'deref', 'pY', 'postinc', 'preinc', 'neg', 'idxe'): continue
+        if tn == 's8' and not keep(pid, tier, 50): continue
+        fi = Func('fi', None, [], Block([A(V(dst), V('l'))], decls=[(lt, 'l', e())]))
+        yield mkprog(pid, [ExprS(Call('fi', []))], funcs=([F1()] if fn else []) + [fi], extra_globals=[dst])
+    # two locals, the second initialised from the first; a local initialised in a nested block
+    fi = Func('fi', None, [], Block([A(V('va'), B('+', V('l'), V('m')))], decls=[('u8', 'l', B('+', V('vb'), C(1))), ('u8', 'm', B('<<', V('l'), C(1)))]))
+    yield mkprog('deep/init/two', [ExprS(Call('fi', []))], funcs=[fi], extra_globals=['va', 'vb'])
+    fi = Func('fi', 'u8', [('u8', 'p')], Block([Return(B('+', V('l'), V('p')))], decls=[('u8', 'l', B('&', V('p'), C(15)))]))
+    yield mkprog('deep/init/param', [A(V('va'), Call('fi', [V('vb')]))], funcs=[fi])
+
+
 def g_deep(tier):
+    yield from g_init(tier)
     yield from g_regconst(tier)
     yield from g_bare(tier)
     yield from g_nasg(tier)
